@@ -1,3 +1,4 @@
+import re
 """R-TYPEGUARD, R-ORDER, R-FORGET, R-EXPANDGUARD, R-NONINTERFERENCE, R-BOUNDLOOP"""
 from ..core import RuleResult, arm_name, is_len_path
 from ..poly import Poly
@@ -201,7 +202,9 @@ def _cast_sites(ctx, f):
         nparent = _parent_generic_count(ctx, cf)
         own_ty = [g for g in cf["generics"][nparent:] if g["kind"] == "type"]
         ins = cf["sig"]["inputs"]
-        if cf.get("self_kind") in ("ref", "mut", "value") and len(ins) == 1 and own_ty:
+        out_s = cf["sig"]["output"].get("s", "")
+        mentions_own = any(re.search(r"(?<![A-Za-z0-9_])" + re.escape(g["name"]) + r"(?![A-Za-z0-9_])", out_s) for g in own_ty)
+        if cf.get("self_kind") in ("ref", "mut", "value") and len(ins) == 1 and own_ty and mentions_own:
             # fn(self) -> reinterpretation as T
             def ext(c, rec, I, nparent=nparent, cf=cf):
                 ga = [a for a in c["generic_args"]]
@@ -754,6 +757,23 @@ def r_boundloop(ctx):
                     ats = list(bp.atoms())
                     if len(ats) == 1 and isinstance(ats[0], tuple) and ats[0][0] in ("userlen", "usersize_hint") and bp == Poly.atom(ats[0]):
                         bounded = True
+            # ... and the bound is the very value the room was made for (a second call of len() may return something else)
+            if bounded:
+                room = set()
+                for r_ in I.all_effects(("RESERVE",)):
+                    room |= {a_ for a_ in as_poly(r_["n"]).atoms() if isinstance(a_, tuple) and a_ and a_[0] in ("userlen", "usersize_hint")}
+                used = set()
+                for sw in I.all_effects(("SWITCH",)):
+                    if sw.gid in loop and isinstance(sw["discr"], tuple) and sw["discr"] and sw["discr"][0] == "cmp":
+                        used |= {a_ for x_ in (sw["discr"][2], sw["discr"][3]) for a_ in as_poly(x_).atoms()
+                                 if isinstance(a_, tuple) and a_ and a_[0] in ("userlen", "usersize_hint")}
+                for nx in nexts:
+                    if nx.get("bound") is not None:
+                        used |= {a_ for a_ in as_poly(nx["bound"]).atoms() if isinstance(a_, tuple) and a_ and a_[0] in ("userlen", "usersize_hint")}
+                if room and used and not (used <= room):
+                    res.fail(dp, "bound-not-reserved/%s" % an, "the write loop is bounded by a length reported by a different call of the user iterator's len() than "
+                             "the one the room was reserved for: an iterator whose len() is not stable writes over the moved tail", span=span_of_effect(writes[0]))
+                    continue
             if not bounded:
                 res.fail(dp, "unbounded-write-loop/%s" % an, "the loop that writes replacement items into storage stops only when the user iterator returns None: "
                          "an iterator yielding more than its len() writes past the reserved space / over the moved tail", span=span_of_effect(writes[0]))
